@@ -257,6 +257,20 @@ def run_shard(sh):
                         allr = refql.evaluate(plain, A).records
                         if len(set(map(lambda r: tuple(map(str, r)), allr))) < len(set(map(lambda r: tuple(map(repr, r)), allr))):
                             res.feat('distinct_records_equal_as_text_only')
+            # numeric value domain: DISTINCT decides by the values themselves (ints whose hashes collide in CPython: -1 / -2, 0 / 2**61-1; 1 vs True vs '1')
+            nrows = [[sp_['k1'], '-1'], [sp_['k1'], '-2'], [sp_['k2'], '0'], [sp_['k2'], '2305843009213693951'], [sp_['k1'], '1']]
+            F = lambda t, i: ('f', t, i)
+            nbases = [[('toint', F('a', 2))], [F('a', 1), ('toint', F('a', 2))], [('toint', F('a', 2)), ('cmp', '==', F('a', 2), ('lit', '1')), F('a', 2)]]
+            for base in nbases:
+                for d in ('distinct', 'count'):
+                    for b in (None, ('LIMIT', 2)):
+                        q = {'kind': 'select', 'items': list(base), 'where': None, 'join': None, 'order': None, 'distinct': d, 'top': b}
+                        text = refql.render(q)
+                        for A in qcheck.tables_upto(nrows, 3):
+                            exp, got, why = qcheck.run_case(res, q, A, None, diagnose=diagnose, text=text)
+                            res.states += 1
+                            if why is None and len(A) >= 2:
+                                res.feat('distinct_over_numeric_values')
         qcheck.run_js_cases(res, jscases, diagnose)
     else:
         sp_ = lasso_space(sh['tier'], sh['seed'])
@@ -285,7 +299,7 @@ def main(tier, seed):
              'non-trivial = ties in the sort key, duplicates actually removed, or n smaller than the unbounded result (A) / bound reached exactly (B)',
         assumptions=['sort keys are mutually comparable strings', 'RefQL models a bounded streaming query as stopping at the bound', 'B: cases whose n-th output never appears are skipped (the query legitimately waits)'],
         extra={'queries_A': len(sp_['qs']), 'queries_B': len(ls['qs'])},
-        min_features={'distinct_records_equal_as_text_only': 50, 'sort_ties': 1000, 'duplicates_removed': 1000, 'truncating': 1000, 'lasso_executions': 500, 'lasso_js_own_iterator_class': 100})
+        min_features={'distinct_records_equal_as_text_only': 50, 'sort_ties': 1000, 'duplicates_removed': 1000, 'truncating': 1000, 'lasso_executions': 500, 'lasso_js_own_iterator_class': 100, 'distinct_over_numeric_values': 500})
 
 
 def replay(rep):
